@@ -58,6 +58,9 @@ MaxInc(q) == Len(q.restarts)
 \* prefix is judged, nothing absent is demanded.
 Settled(q, j) == IF q.overflow THEN FALSE ELSE IF j >= MaxInc(q) THEN TRUE ELSE q.restarts[j + 1].quiet
 
+\* before the restart that ended incarnation j the runner waited until nothing was owed, or for the whole long timeout
+Patient(q, j) == ~q.overflow /\ j < MaxInc(q) /\ q.restarts[j + 1].patient
+
 Reacts(k, i) == k.react = "all" \/ F[i].name = "t"
 Fails(k, i) == k.fail_on # "" /\ F[i].topic = k.fail_on
 Synth(t) == t \in {"xs.threshold", "xs.pulse"}
@@ -151,7 +154,15 @@ HInst(q, r, j) ==
         ELSE IF Fails(k, t) THEN {V({"C15"}, "output-of-failed-call", t)}
         ELSE IF t >= End THEN {V({"C16", "C14"}, "processed-after-stop", t)}
         ELSE {}
+      \* ---- C17: an instance that was shown a stop condition (a failing trigger, an (un)register of its name) in an earlier
+      \* incarnation - it had answered an earlier trigger of that incarnation, so it was subscribed, and the runner was
+      \* patient before the restart - does not come back, whatever the stream says about it
+      StopPrev == {i \in Idx : F[i].ctx = c /\ F[i].inc < j /\ i > r /\ F[i].hid # r
+                                /\ (OwnReg(i) \/ (Reacts(k, i) /\ Fails(k, i))) /\ Patient(q, F[i].inc)}
+      OutPrev == {o \in Idx : F[o].hid = r /\ Proc(o) /\ F[o].inc < j /\ F[o].fid >= 1 /\ F[o].fid \in Idx}
+      restored == St # {} /\ \E i \in StopPrev : \E o \in OutPrev : F[o].fid < i /\ F[F[o].fid].inc = F[i].inc
       viol ==
+        (IF restored THEN {V({"C17", "C16"}, "restored-after-stop", Min(St))} ELSE {}) \cup
         \* ---- stamps and scope of everything the instance wrote
         {V({"C15", "C06"}, "output-context", i) : i \in {i \in St : F[i].ctx # c}}
         \cup {V({"C15"}, "stamp-frame-id-missing", o) : o \in {o \in Out : F[o].fid = 0}}
@@ -293,14 +304,19 @@ CCall(qe, q) ==
             napp == Len(k.cappends)
             total == napp + nrecv + 1
             Term == {i \in Resp : F[i].name = n /\ F[i].suf \in {"complete", "error"}}
+            \* position x of a call's output: explicit appends first, then one frame per value - or, for a stream that
+            \* appends while it is drained, append and value in turns
+            IsApp(x) == IF k.interleave THEN x <= 2 * napp /\ x % 2 = 1 ELSE x <= napp
+            AppIdx(x) == IF k.interleave THEN (x + 1) \div 2 ELSE x
+            RecvIdx(x) == IF k.interleave THEN x \div 2 ELSE x - napp
             FrameBad(o, x) ==
-              (IF x <= napp THEN
-                 (IF F[o].topic # k.cappends[x].topic THEN {V({"C19"}, "call-output-order", o)} ELSE {})
-                 \cup (IF F[o].c.k # k.cappends[x].k THEN {V({"C19", "C10", "C12"}, "call-output-content", o)} ELSE {})
+              (IF IsApp(x) THEN
+                 (IF F[o].topic # k.cappends[AppIdx(x)].topic THEN {V({"C19"}, "call-output-order", o)} ELSE {})
+                 \cup (IF F[o].c.k # k.cappends[AppIdx(x)].k THEN {V({"C19", "C10", "C12"}, "call-output-content", o)} ELSE {})
                ELSE IF x <= napp + nrecv THEN
                  (IF F[o].name # n \/ ("." \o F[o].suf) # sfx THEN {V({"C19"}, "call-output-order", o)} ELSE {})
                  \cup (IF F[o].ttl # k.cttl THEN {V({"C19"}, "call-output-ttl", o)} ELSE {})
-                 \cup (IF F[o].c.k # k.recv[x - napp] THEN {V({"C19", "C10", "C12"}, "call-output-content", o)} ELSE {})
+                 \cup (IF F[o].c.k # k.recv[RecvIdx(x)] THEN {V({"C19", "C10", "C12"}, "call-output-content", o)} ELSE {})
                  \cup (IF F[o].name = n /\ ("." \o F[o].suf) = sfx /\ (~F[o].hash \/ ~F[o].cas)
                        THEN {V({"C19", "C10"}, "call-output-content-missing", o)} ELSE {})
                ELSE
